@@ -3,7 +3,9 @@
    Machines: Model.step (sequential; a whole member per step) and Model.gstep (threads; one
    micro-operation per step).  Both execute Model.model_table with Model.mexec. *)
 From Common Require Import Prelude.
-From C08 Require Import Model Proofs ProofsHist ProofsConc.
+From C08 Require Import Model Proofs ProofsLift ProofsHist ProofsConc ProofsCmp.
+Local Notation MT := (model_table) (only parsing).
+Local Notation MC := (model_contracts) (only parsing).
 Local Open Scope Z_scope.
 
 (* ---- sequential histories: any number of handle slots n, any history l (create, the five
@@ -13,31 +15,31 @@ Local Open Scope Z_scope.
 (* useCount() = creator-side references + number of handles pointing at the object *)
 Theorem seq_count_is_creator_plus_handles : forall n l o, let s := run n l in
   is_alive s o = true -> use_count s o = creator (getobj (s_heap s) o) + nh (s_hs s) o.
-Proof. exact seq_count_eq. Qed.
+Proof. exact (seq_count_eq MT MC). Qed.
 Print Assumptions seq_count_is_creator_plus_handles.
 
 (* no RMW on a dead object, no second delete, no call through null, ever *)
 Theorem seq_no_error_state : forall n l, err (s_heap (run n l)) = false.
-Proof. exact seq_no_error. Qed.
+Proof. exact (seq_no_error MT MC). Qed.
 Print Assumptions seq_no_error_state.
 
 (* never destroyed while a reference remains, and destroyed as soon as none remains *)
 Theorem seq_alive_iff_referenced : forall n l o, let s := run n l in
   is_alive s o = true <-> 1 <= creator (getobj (s_heap s) o) + nh (s_hs s) o.
-Proof. exact ProofsHist.seq_alive_iff_referenced. Qed.
+Proof. exact (ProofsHist.seq_alive_iff_referenced MT MC). Qed.
 Print Assumptions seq_alive_iff_referenced.
 
 (* a handle never dangles *)
 Theorem seq_handle_target_alive : forall n l h o, let s := run n l in
   handle_ptr s h = Some o -> is_alive s o = true.
-Proof. exact seq_no_dangling. Qed.
+Proof. exact (seq_no_dangling MT MC). Qed.
 Print Assumptions seq_handle_target_alive.
 
 (* exactly one delete per dead object, none for a live one *)
 Theorem seq_destroyed_exactly_once : forall n l o, let s := run n l in
   dels (log (s_heap s)) o =
   if Nat.ltb o (length (objs (s_heap s))) && negb (is_alive s o) then 1 else 0.
-Proof. exact ProofsHist.seq_destroyed_exactly_once. Qed.
+Proof. exact (ProofsHist.seq_destroyed_exactly_once MT MC). Qed.
 Print Assumptions seq_destroyed_exactly_once.
 
 (* the delete happens in the step that makes "creator + handles" 0, and is logged in that step *)
@@ -46,7 +48,7 @@ Theorem seq_destroyed_by_last_release : forall n l op o,
   is_alive s o = true ->
   (is_alive s' o = false <-> creator (getobj (s_heap s') o) + nh (s_hs s') o = 0) /\
   dels (log (s_heap s')) o = dels (log (s_heap s)) o + (if is_alive s' o then 0 else 1).
-Proof. exact seq_destroyed_at_last_release. Qed.
+Proof. exact (seq_destroyed_at_last_release MT MC). Qed.
 Print Assumptions seq_destroyed_by_last_release.
 
 (* operator== / operator!= : equal exactly when they point at the same (live) object or are both null *)
@@ -55,41 +57,41 @@ Theorem handles_equal_iff_same_object : forall n l a b, let s := run n l in
   handle_ne s a b = negb (handle_eq s a b) /\
   (forall o, handle_ptr s a = Some o -> handle_eq s a b = true ->
              handle_ptr s b = Some o /\ is_alive s o = true).
-Proof. exact seq_handle_eq_iff. Qed.
+Proof. exact (seq_handle_eq_iff MT MC). Qed.
 Print Assumptions handles_equal_iff_same_object.
 
 (* ---- threads: any number of threads n with k handle slots each, a shared read-only array
    built by any sequential history, any schedule at micro-operation granularity ---- *)
 
 (* count = creator + shared array + handles of all threads + transient references of all threads *)
-Theorem conc_count_with_transients : forall g o, reach g ->
+Theorem conc_count_with_transients : forall g o, reach MT g ->
   err (g_heap g) = false /\
   cnt (getobj (g_heap g) o) =
     creator (getobj (g_heap g) o) + nhz (g_fz g) o + sum_handles (g_ths g) o + sum_trans (g_fz g) (g_ths g) o /\
   alive (getobj (g_heap g) o) = (1 <=? cnt (getobj (g_heap g) o)).
-Proof. exact conc_count_eq. Qed.
+Proof. exact (conc_count_eq MT MC). Qed.
 Print Assumptions conc_count_with_transients.
 
 (* when no member is in flight there are no transients *)
-Theorem conc_count_when_quiescent : forall g o, reach g -> Forall idle (g_ths g) ->
+Theorem conc_count_when_quiescent : forall g o, reach MT g -> Forall idle (g_ths g) ->
   cnt (getobj (g_heap g) o) = creator (getobj (g_heap g) o) + nhz (g_fz g) o + sum_handles (g_ths g) o.
-Proof. exact conc_quiescent. Qed.
+Proof. exact (conc_quiescent MT MC). Qed.
 Print Assumptions conc_count_when_quiescent.
 
 (* a thread only performs an RMW on an object that is alive at that moment *)
-Theorem conc_touched_object_alive : forall g t th m rem o, reach g ->
+Theorem conc_touched_object_alive : forall g t th m rem o, reach MT g ->
   nth_error (g_ths g) t = Some th -> t_rem th = m :: rem ->
   (exists gd p, (m = MInc gd p \/ m = MDec gd p) /\ eval (g_fz g) (t_fr th) (t_hs th) p = Some o) ->
   alive (getobj (g_heap g) o) = true.
-Proof. exact conc_touch_alive. Qed.
+Proof. exact (conc_touch_alive MT MC). Qed.
 Print Assumptions conc_touched_object_alive.
 
 (* exactly one delete per dead object; a dead object has count 0 and nothing refers to it *)
-Theorem conc_destroyed_exactly_once : forall g o, reach g ->
+Theorem conc_destroyed_exactly_once : forall g o, reach MT g ->
   dels (log (g_heap g)) o = (if Nat.ltb o (length (objs (g_heap g))) && negb (alive (getobj (g_heap g) o)) then 1 else 0) /\
   (alive (getobj (g_heap g) o) = false -> cnt (getobj (g_heap g) o) = 0 /\ creator (getobj (g_heap g) o) = 0 /\
                                          nhz (g_fz g) o + sum_hold (g_fz g) (g_ths g) o = 0).
-Proof. exact conc_delete_once. Qed.
+Proof. exact (conc_delete_once MT MC). Qed.
 Print Assumptions conc_destroyed_exactly_once.
 
 (* the delete is performed by the one decrement that returned 0 (and by nothing else) *)
@@ -102,8 +104,112 @@ Print Assumptions delete_by_the_decrement_that_returned_zero.
 
 (* every reachable concurrent state satisfies the invariant (used by the four above) *)
 Theorem conc_invariant_preserved : forall g l, CInv g -> CInv (gstep g l).
-Proof. exact gstep_inv. Qed.
+Proof. exact (gstep_inv MT MC). Qed.
 Print Assumptions conc_invariant_preserved.
+
+(* ---- the same theorems for ANY micro-operation table that meets the per-member contracts
+   ([contracts_ok tbl = true]: on every abstract configuration each member issues the reference
+   row's counter RMWs, on the same targets, in the same order, does nothing outside the model, and
+   leaves the same pointers).  The machines run [tbl]; the lifting lemma ProofsLift.prog_safe_t
+   carries the contract from the abstract configurations to every real state.
+   PropertiesFacts.v instantiates them with the table extracted from the current source. ---- *)
+
+Theorem seq_count_is_creator_plus_handles_tbl : forall tbl, contracts_ok tbl = true ->
+  forall n l o, let s := run_t tbl n l in
+  is_alive s o = true -> use_count s o = creator (getobj (s_heap s) o) + nh (s_hs s) o.
+Proof. exact seq_count_eq. Qed.
+Print Assumptions seq_count_is_creator_plus_handles_tbl.
+
+Theorem seq_no_error_state_tbl : forall tbl, contracts_ok tbl = true ->
+  forall n l, err (s_heap (run_t tbl n l)) = false.
+Proof. exact seq_no_error. Qed.
+Print Assumptions seq_no_error_state_tbl.
+
+Theorem seq_alive_iff_referenced_tbl : forall tbl, contracts_ok tbl = true ->
+  forall n l o, let s := run_t tbl n l in
+  is_alive s o = true <-> 1 <= creator (getobj (s_heap s) o) + nh (s_hs s) o.
+Proof. exact ProofsHist.seq_alive_iff_referenced. Qed.
+Print Assumptions seq_alive_iff_referenced_tbl.
+
+Theorem seq_handle_target_alive_tbl : forall tbl, contracts_ok tbl = true ->
+  forall n l h o, let s := run_t tbl n l in handle_ptr s h = Some o -> is_alive s o = true.
+Proof. exact seq_no_dangling. Qed.
+Print Assumptions seq_handle_target_alive_tbl.
+
+Theorem seq_destroyed_exactly_once_tbl : forall tbl, contracts_ok tbl = true ->
+  forall n l o, let s := run_t tbl n l in
+  dels (log (s_heap s)) o =
+  if Nat.ltb o (length (objs (s_heap s))) && negb (is_alive s o) then 1 else 0.
+Proof. exact ProofsHist.seq_destroyed_exactly_once. Qed.
+Print Assumptions seq_destroyed_exactly_once_tbl.
+
+Theorem seq_destroyed_by_last_release_tbl : forall tbl, contracts_ok tbl = true ->
+  forall n l op o, let s := run_t tbl n l in let s' := fst (step_t tbl s op) in
+  is_alive s o = true ->
+  (is_alive s' o = false <-> creator (getobj (s_heap s') o) + nh (s_hs s') o = 0) /\
+  dels (log (s_heap s')) o = dels (log (s_heap s)) o + (if is_alive s' o then 0 else 1).
+Proof. exact seq_destroyed_at_last_release. Qed.
+Print Assumptions seq_destroyed_by_last_release_tbl.
+
+Theorem handles_equal_iff_same_object_tbl : forall tbl, contracts_ok tbl = true ->
+  forall n l a b, let s := run_t tbl n l in
+  (handle_eq s a b = true <-> handle_ptr s a = handle_ptr s b) /\
+  handle_ne s a b = negb (handle_eq s a b) /\
+  (forall o, handle_ptr s a = Some o -> handle_eq s a b = true ->
+             handle_ptr s b = Some o /\ is_alive s o = true).
+Proof. exact seq_handle_eq_iff. Qed.
+Print Assumptions handles_equal_iff_same_object_tbl.
+
+Theorem conc_count_with_transients_tbl : forall tbl, contracts_ok tbl = true ->
+  forall g o, reach tbl g ->
+  err (g_heap g) = false /\
+  cnt (getobj (g_heap g) o) =
+    creator (getobj (g_heap g) o) + nhz (g_fz g) o + sum_handles (g_ths g) o + sum_trans (g_fz g) (g_ths g) o /\
+  alive (getobj (g_heap g) o) = (1 <=? cnt (getobj (g_heap g) o)).
+Proof. exact conc_count_eq. Qed.
+Print Assumptions conc_count_with_transients_tbl.
+
+Theorem conc_count_when_quiescent_tbl : forall tbl, contracts_ok tbl = true ->
+  forall g o, reach tbl g -> Forall idle (g_ths g) ->
+  cnt (getobj (g_heap g) o) = creator (getobj (g_heap g) o) + nhz (g_fz g) o + sum_handles (g_ths g) o.
+Proof. exact conc_quiescent. Qed.
+Print Assumptions conc_count_when_quiescent_tbl.
+
+Theorem conc_touched_object_alive_tbl : forall tbl, contracts_ok tbl = true ->
+  forall g t th m rem o, reach tbl g ->
+  nth_error (g_ths g) t = Some th -> t_rem th = m :: rem ->
+  (exists gd p, (m = MInc gd p \/ m = MDec gd p) /\ eval (g_fz g) (t_fr th) (t_hs th) p = Some o) ->
+  alive (getobj (g_heap g) o) = true.
+Proof. exact conc_touch_alive. Qed.
+Print Assumptions conc_touched_object_alive_tbl.
+
+Theorem conc_destroyed_exactly_once_tbl : forall tbl, contracts_ok tbl = true ->
+  forall g o, reach tbl g ->
+  dels (log (g_heap g)) o = (if Nat.ltb o (length (objs (g_heap g))) && negb (alive (getobj (g_heap g) o)) then 1 else 0) /\
+  (alive (getobj (g_heap g) o) = false -> cnt (getobj (g_heap g) o) = 0 /\ creator (getobj (g_heap g) o) = 0 /\
+                                         nhz (g_fz g) o + sum_hold (g_fz g) (g_ths g) o = 0).
+Proof. exact conc_delete_once. Qed.
+Print Assumptions conc_destroyed_exactly_once_tbl.
+
+Theorem conc_invariant_preserved_tbl : forall tbl, contracts_ok tbl = true ->
+  forall g l, CInv g -> CInv (gstep_t tbl g l).
+Proof. exact gstep_inv. Qed.
+Print Assumptions conc_invariant_preserved_tbl.
+
+(* the lifting lemma itself: a contract checked on the abstract configurations holds on every
+   legal start state (any handles, any objects) *)
+Theorem contract_lifts_to_every_state : forall tbl fz m fr hs,
+  contracts_ok tbl = true -> frame_ok fz m fr hs -> (forall k, f_loc fr k = None) ->
+  safe fz (prog_of tbl m) fr hs /\ forall o, holdv fz (prog_of tbl m) fr hs o = nh hs o.
+Proof. exact prog_safe_t. Qed.
+Print Assumptions contract_lifts_to_every_state.
+
+(* comparison expressions: agreeing with ==, !=, < on the three order types of two addresses is
+   agreeing on all addresses *)
+Theorem comparison_contract_sound : forall c, cmp_ok c = true -> forall x y,
+  ceval (c_eq c) x y = (x =? y) /\ ceval (c_ne c) x y = negb (x =? y) /\ ceval (c_lt c) x y = (x <? y).
+Proof. exact cmp_sound. Qed.
+Print Assumptions comparison_contract_sound.
 
 (* ---- non-vacuity ---- *)
 Definition h1 := [Create; RawCtor 0 (Some 0%nat); RefDec 0%nat].   (* object 0 held by handle 0 only, count 1 *)
@@ -142,3 +248,19 @@ Example ex_threads_quiescent :
   let g := grun g0 (sched1 ++ [LStart 1 (TCopyCtor 0 (SFz 0)); LMicro 1; LMicro 0; LMicro 1; LMicro 0; LStart 1 (TDtor 0); LMicro 1; LMicro 1]) in
   (cnt (getobj (g_heap g) 0%nat), sum_handles (g_ths g) 0%nat, sum_trans (g_fz g) (g_ths g) 0%nat, err (g_heap g)) = (2, 1, 0, false).
 Proof. vm_compute. reflexivity. Qed.
+
+(* a differently written but equivalent member (local temporary) meets the contracts; the swapped one does not *)
+Definition temp_table (m : meth) : list mop :=
+  match m with
+  | MCopyAssign => [MStore (DLoc 0) PArg; MInc true (PLoc 0); MDec true PThis; MStore DThis (PLoc 0)]
+  | _ => model_table m
+  end.
+Example ex_contracts_accept_equivalent_reject_swapped :
+  contracts_ok temp_table = true /\ contracts_ok swapped_table = false.
+Proof. vm_compute. split; reflexivity. Qed.
+
+Example ex_cmp_contract_rejects_wrong_ne :
+  cmp_ok model_cmp = true /\
+  cmp_ok (mkCmp (CCmp KEq CA CB) (CCmp KLt CA CB) (CCmp KLt CA CB) true true true) = false /\
+  cmp_ok (mkCmp (CNot (CCmp KNe CB CA)) (CNot (CCmp KEq CA CB)) (CCmp KGt CB CA) true true true) = true.
+Proof. vm_compute. repeat split; reflexivity. Qed.
